@@ -335,13 +335,45 @@ out:
 	relt_clear(&a); relt_clear(&g);
 }
 
+/* ---------------------------------------------------------------- small-constant forms: args sel, tid, a, d (a digit) */
+typedef void (*dg_fn)(void *, const void *, dig_t); typedef int (*cd_fn)(const void *, dig_t); typedef void (*sd_fn)(void *, dig_t);
+#define WDG(name) static void w_##name(void *c, const void *a, dig_t d) { name(c, a, d); }
+#define WCD(name) static int w_##name(const void *a, dig_t d) { return name(a, d); }
+#define WSD(name) static void w_##name(void *a, dig_t d) { name(a, d); }
+WDG(fp2_add_dig) WDG(fp2_sub_dig) WDG(fp2_mul_dig) WDG(fp2_exp_dig) WDG(fp3_add_dig) WDG(fp3_sub_dig) WDG(fp3_mul_dig) WDG(fp4_add_dig) WDG(fp4_sub_dig) WDG(fp4_mul_dig) WDG(fp8_mul_dig) WDG(fp8_exp_dig)
+WDG(fp12_exp_dig) WDG(fp16_exp_dig) WDG(fp18_exp_dig) WDG(fp24_exp_dig) WDG(fp48_exp_dig) WDG(fp54_exp_dig)
+#define CS(N) WCD(fp##N##_cmp_dig) WSD(fp##N##_set_dig)
+CS(2) CS(3) CS(4) CS(6) CS(8) CS(9) CS(12) CS(16) CS(18) CS(24) CS(48) CS(54)
+static const struct { int N; dg_fn add, sub, mul, exp; cd_fn cmp; sd_fn set; } DG[] = {
+	{2, w_fp2_add_dig, w_fp2_sub_dig, w_fp2_mul_dig, w_fp2_exp_dig, w_fp2_cmp_dig, w_fp2_set_dig}, {3, w_fp3_add_dig, w_fp3_sub_dig, w_fp3_mul_dig, NULL, w_fp3_cmp_dig, w_fp3_set_dig},
+	{4, w_fp4_add_dig, w_fp4_sub_dig, w_fp4_mul_dig, NULL, w_fp4_cmp_dig, w_fp4_set_dig}, {6, NULL, NULL, NULL, NULL, w_fp6_cmp_dig, w_fp6_set_dig}, {8, NULL, NULL, w_fp8_mul_dig, w_fp8_exp_dig, w_fp8_cmp_dig, w_fp8_set_dig},
+	{9, NULL, NULL, NULL, NULL, w_fp9_cmp_dig, w_fp9_set_dig}, {12, NULL, NULL, NULL, w_fp12_exp_dig, w_fp12_cmp_dig, w_fp12_set_dig}, {16, NULL, NULL, NULL, w_fp16_exp_dig, w_fp16_cmp_dig, w_fp16_set_dig},
+	{18, NULL, NULL, NULL, w_fp18_exp_dig, w_fp18_cmp_dig, w_fp18_set_dig}, {24, NULL, NULL, NULL, w_fp24_exp_dig, w_fp24_cmp_dig, w_fp24_set_dig}, {48, NULL, NULL, NULL, w_fp48_exp_dig, w_fp48_cmp_dig, w_fp48_set_dig}, {54, NULL, NULL, NULL, w_fp54_exp_dig, w_fp54_cmp_dig, w_fp54_set_dig}};
+static void do_dig(vf_case *c) {
+	tdesc *D = &TW[mpz_get_si(c->v[1])]; const rtower *T = &D->rt; int th, N = D->N, di = -1; for (unsigned i = 0; i < sizeof DG / sizeof *DG; i++) if (DG[i].N == N) di = (int)i; if (di < 0) return;
+	relt a, r, dd; relt_init(&a); relt_init(&r); relt_init(&dd); unpack(&a, T, c->v[2]); dig_t d = (dig_t)mpz_get_ui(c->v[3]); mpz_t z; mpz_init(z); mpz_set_ui(z, (unsigned long)d);
+	relt_zero(T, &dd); mpz_mod(dd.c[0], z, RX_P); char w[64];
+	for (int al = 0; al < 2; al++) {
+		if (DG[di].add) { put(EA, T, &a); junk(EC, N); fp_st *o = al ? EA : EC; VF_TRY(th, DG[di].add(o, EA, d)); relt_add(T, &r, &a, &dd); snprintf(w, sizeof w, "fp%d_add_dig%s", N, al ? "[alias]" : ""); if (th) vf_fail(NULL, "%s raised", w); else expect(D, w, o, &r, NULL); }
+		if (DG[di].sub) { put(EA, T, &a); junk(EC, N); fp_st *o = al ? EA : EC; VF_TRY(th, DG[di].sub(o, EA, d)); relt_sub(T, &r, &a, &dd); snprintf(w, sizeof w, "fp%d_sub_dig%s", N, al ? "[alias]" : ""); if (th) vf_fail(NULL, "%s raised", w); else expect(D, w, o, &r, NULL); }
+		if (DG[di].mul) { put(EA, T, &a); junk(EC, N); fp_st *o = al ? EA : EC; VF_TRY(th, DG[di].mul(o, EA, d)); relt_mul(T, &r, &a, &dd); snprintf(w, sizeof w, "fp%d_mul_dig%s", N, al ? "[alias]" : ""); if (th) vf_fail(NULL, "%s raised", w); else expect(D, w, o, &r, NULL); }
+		if (DG[di].exp && (N <= 12 || d < 70000)) { put(EA, T, &a); junk(EC, N); fp_st *o = al ? EA : EC; VF_TRY(th, DG[di].exp(o, EA, d)); relt_pow(T, &r, &a, z); snprintf(w, sizeof w, "fp%d_exp_dig%s", N, al ? "[alias]" : ""); if (th) vf_fail(frb_kf(D), "%s raised", w); else expect(D, w, o, &r, frb_kf(D)); /* exp_dig asks fpN_test_cyc, which is built from the Frobenius (L31 at foreign primes) */ } }
+	/* set_dig / cmp_dig: the digit as an element of the tower; equality with a digit means coefficient 0 equals it and all others vanish */
+	{ junk(EC, N); VF_TRY(th, DG[di].set(EC, d)); snprintf(w, sizeof w, "fp%d_set_dig", N); if (th) vf_fail(NULL, "%s raised", w); else expect(D, w, EC, &dd, NULL);
+		int e = 9; put(EA, T, &a); VF_TRY(th, e = DG[di].cmp(EA, d)); transitions++; if (!th && ((e == RLC_EQ) != relt_eq(T, &a, &dd))) vf_fail(NULL, "fp%d_cmp_dig: says %s for an element that %s the digit", N, e == RLC_EQ ? "EQ" : "NE", relt_eq(T, &a, &dd) ? "equals" : "differs from");
+		put(EA, T, &dd); VF_TRY(th, e = DG[di].cmp(EA, d)); transitions++; if (!th && e != RLC_EQ) vf_fail(NULL, "fp%d_cmp_dig: the digit itself does not compare equal", N);
+		/* an element whose coefficients other than the first cancel pairwise but are non-zero is not the digit */
+		if (N >= 2) { relt x; relt_init(&x); relt_set(T, &x, &dd); mpz_set_ui(x.c[N - 1], 1); if (N > 2) mpz_sub_ui(x.c[1], RX_P, 1); put(EA, T, &x); VF_TRY(th, e = DG[di].cmp(EA, d)); transitions++; if (!th && e == RLC_EQ) vf_fail(NULL, "fp%d_cmp_dig: an element with non-zero higher coefficients compares equal to a digit", N); relt_clear(&x); } }
+	relt_clear(&a); relt_clear(&r); relt_clear(&dd); mpz_clear(z);
+}
+
 static void run_case(vf_case *c) {
 	if (!select_prime(c->v[0])) { vf_fail(NULL, "prime refused"); return; }
 	long tid = mpz_get_si(c->v[1]); if (tid < 1 || tid >= NTW) { vf_fail(NULL, "bad tower"); return; }
 	if (!TW[tid].usable) return;
 	vf_nontrivial();
 	if (!strcmp(c->op, "bin")) do_bin(c); else if (!strcmp(c->op, "un")) do_un(c); else if (!strcmp(c->op, "frb")) do_frb(c); else if (!strcmp(c->op, "exp")) do_exp(c);
-	else if (!strcmp(c->op, "srt")) do_srt(c); else if (!strcmp(c->op, "cyc")) do_cyc(c); else if (!strcmp(c->op, "isim")) do_isim(c); else if (!strcmp(c->op, "cycx")) do_cycx(c); else if (!strcmp(c->op, "cod")) do_cod(c); else vf_fail(NULL, "unknown op");
+	else if (!strcmp(c->op, "srt")) do_srt(c); else if (!strcmp(c->op, "cyc")) do_cyc(c); else if (!strcmp(c->op, "isim")) do_isim(c); else if (!strcmp(c->op, "cycx")) do_cycx(c); else if (!strcmp(c->op, "cod")) do_cod(c); else if (!strcmp(c->op, "dig")) do_dig(c); else vf_fail(NULL, "unknown op");
 }
 
 /* ---------------------------------------------------------------- enumeration */
@@ -399,7 +431,7 @@ static void enumerate(void) {
 			/* tiny_exclusion: Frobenius-based routines (frb, srt, is_sqr, cyclotomic family) of the towers above degree 3 use constants that
 			 * exist only when p = 1 mod the tower's index (true inside every pairing family, not for arbitrary 16-bit primes): the tiny world
 			 * judges the ring operations of those towers only; the Frobenius-based ones are judged at the shipped pairing primes. */
-			for (int i = 0; i < d.n && !vf_expired(); i += st) if (vf_mine()) { run_el("un", sel, tid, d.v[i]); run_el("cod", sel, tid, d.v[i]);
+			for (int i = 0; i < d.n && !vf_expired(); i += st) if (vf_mine()) { run_el("un", sel, tid, d.v[i]); run_el("cod", sel, tid, d.v[i]); { static const unsigned long DS[] = {0, 1, 2, 3, 255, 65537}; for (int q = 0; q < 6; q++) { if (WSIZE == 8 && DS[q] > 255) continue; if ((i + q) % 3 && q > 1) continue; K.op = "dig"; K.n = 4; mpz_set(K.v[0], sel); mpz_set_si(K.v[1], tid); mpz_set(K.v[2], d.v[i]); mpz_set_ui(K.v[3], DS[q]); vf_run(&K); } }
 				for (int j = i % 3; j < d.n; j += (d.n > 60 ? d.n / 20 : 1)) { K.op = "bin"; K.n = 4; mpz_set(K.v[0], sel); mpz_set_si(K.v[1], tid); mpz_set(K.v[2], d.v[i]); mpz_set(K.v[3], d.v[j]); vf_run(&K); if ((i + j) % 3 == 0) { K.op = "isim"; vf_run(&K); } } }
 			vf_dom_clear(&d); }
 		vf_bound_done(bn);
@@ -431,7 +463,7 @@ static void enumerate(void) {
 			vf_dom d; vf_dom_init(&d); tower_alphabet(&d, tid);
 			int budget = vf_tier ? 3000 : (TW[tid].N <= 4 ? 400 : TW[tid].N <= 12 ? 160 : 24);
 			int st = d.n > budget ? d.n / budget : 1, pairs = TW[tid].N <= 4 ? 40 : (TW[tid].N <= 12 ? 12 : 4);
-			for (int i = 0; i < d.n && !vf_expired(); i += st) if (vf_mine()) { run_el("un", sel, tid, d.v[i]); run_el("cod", sel, tid, d.v[i]);
+			for (int i = 0; i < d.n && !vf_expired(); i += st) if (vf_mine()) { run_el("un", sel, tid, d.v[i]); run_el("cod", sel, tid, d.v[i]); { static const unsigned long DS[] = {0, 1, 2, 3, 255, 65537}; for (int q = 0; q < 6; q++) { if (WSIZE == 8 && DS[q] > 255) continue; if ((i + q) % 3 && q > 1) continue; K.op = "dig"; K.n = 4; mpz_set(K.v[0], sel); mpz_set_si(K.v[1], tid); mpz_set(K.v[2], d.v[i]); mpz_set_ui(K.v[3], DS[q]); vf_run(&K); } }
 				if (i % (8 * st) == 0) run_el("frb", sel, tid, d.v[i]);
 				if (TW[tid].srt && i % (4 * st) == 0) run_el("srt", sel, tid, d.v[i]);
 				if (TW[tid].N == 12 && i % (2 * st) == 0) run_el("cyc", sel, tid, d.v[i]);
